@@ -93,7 +93,10 @@ F_PATTERNS = ["true", "false", "NP % 2 == 0", "PL > 10", "g > 0", "x", "loc", "1
 F_ACTIONS = ["", "{ }", "{ g = g + 1; }", "{ return; }", "{ return 1; }", "{ break; }", "{ continue; }", "{ x = x + 1; }", "{ loc = loc + 1; puts(loc); }",
              "{ let a = 1; let b = 2; let c = a + b; g = g + c; }", "{ 1 / 0; }", "{ f(g); }", "{ rec(50); }", "{ rec(100000); }", "{ @ true { g = g + 1; } }",
              "{ fn inner() { return 5; } g = g + inner(); }", "{ while true { break; } }", "{ let i = 0; while i < 3 { i = i + 1; if i == 2 { continue; } } }",
-             "{ puts(NP, \" \", PL, \" \", WL, \" \", TSS, \" \", TSU); }", "{ exit(0); }", "{ self_name(1); }", "{ let big = [1, 2, 3] * 2; }", "{ undefined_fn(); }"]
+             "{ puts(NP, \" \", PL, \" \", WL, \" \", TSS, \" \", TSU); }", "{ exit(0); }", "{ self_name(1); }", "{ let big = [1, 2, 3] * 2; }", "{ undefined_fn(); }",
+             # unbounded recursion started from a filter, through functions with no parameters and no locals: the frame limit, not the
+             # operand stack, is what stops it (a filter frame has no callee slot)
+             "{ inf(); }", "{ pa(); }", "{ inf3(); }", "{ let q = 1; inf(); }"]
 F_PLACES = [
     "@ {pat} {act}\n",
     "fn host(x) {{\n  let loc = 5;\n  @ {pat} {act}\n  return x;\n}}\nhost(1);\n",
@@ -105,7 +108,7 @@ F_PLACES = [
     "@ end {act}\n",
     "@ {pat} {act}\n@ end {{ puts(NP); }}\n@ end {{ puts(g); }}\n",
 ]
-F_PRELUDE = "let g = 1;\nlet x = 0;\nlet loc = 0;\nfn f(n) { n + g }\nfn rec(n) { if n == 0 { 0 } else { 1 + rec(n - 1) } }\nfn self_name(n) { n }\n"
+F_PRELUDE = "let g = 1;\nlet x = 0;\nlet loc = 0;\nfn f(n) { n + g }\nfn rec(n) { if n == 0 { 0 } else { 1 + rec(n - 1) } }\nfn self_name(n) { n }\nfn inf() { return inf(); }\nfn pa() { return pb(); }\nfn pb() { return pa(); }\nfn inf3() { inf3(); return 0; }\n"
 
 
 def filter_programs(rng, n_random):
